@@ -17,7 +17,7 @@ import pickle
 
 import pipeline
 import export_ast
-from trans_models import LANGS
+from trans_models import LANGS, MODELS
 
 _POOL = {}
 
@@ -62,6 +62,7 @@ def snapshot(tr):
 def install(state, spec):
     state["pool"] = pool()
     state["copies"] = []
+    state["H"] = int(spec.get("c11_histories", 5))
 
 
 def first_diff(a, b):
@@ -84,8 +85,6 @@ def first_diff(a, b):
 
 def stage(state, name, program, st):
     from src import utils
-    H = state_h = None
-    spec = st.get("_spec") or {}
     H = state.get("H", 5)
     pl = state["pool"]["progs"]
     e0 = export_ast.export_program(program)
@@ -168,6 +167,10 @@ def stage(state, name, program, st):
                 d["history"] = k
                 rec["diffs"].append(d)
             s1 = snapshot(tr)
+            if k == 3 and L in MODELS:
+                # the attributes the Lean model's `state_op` answers, after [pool0, pool1, p, p]
+                rec["attrs_after"] = {a: canon(getattr(tr, a, "<missing>")) for a in MODELS[L]["state_attrs"]}
+                rec["stack_len_after"] = len(getattr(tr, "_nodes_stack", []))
             if s1 != s0:
                 rec["snap_diffs"].append({"history": k, "attrs": [[a, s0.get(a), s1.get(a)] for a in sorted(set(s0) | set(s1))
                                                                   if s0.get(a) != s1.get(a)][:6]})
@@ -190,6 +193,13 @@ def stage(state, name, program, st):
         out["kotlin_visit"] = vis
     except Exception as e:  # noqa: BLE001
         out["kotlin_visit_error"] = type(e).__name__ + ": " + str(e)[:200]
+    # tu.is_sam on every class declaration (theorem is_sam_never; the translator asks exactly this)
+    try:
+        from src.ir import type_utils as tu, ast as _ast
+        out["is_sam"] = [[d.name, bool(tu.is_sam(program.context, cls_decl=d))]
+                         for d in program.declarations if isinstance(d, _ast.ClassDeclaration)]
+    except Exception as e:  # noqa: BLE001
+        out["is_sam_error"] = type(e).__name__ + ": " + str(e)[:200]
     out["export_unchanged"] = export_ast.export_program(program) == e0
     # classes registered outside the global namespace? (assumption of the is_sam model)
     out["nested_classes"] = sum(1 for ns, kind, _ in e0["context"] if kind == "classes" and ns != ["global"])
